@@ -194,6 +194,10 @@ CATALOGUE = [
     ("woff2-endpoints-list-copy", "ttLib/woff2.py", "        for endPoint in glyph.endPtsOfContours:\n            ptsOfContour = endPoint - lastEndPoint", "        for endPoint in list(glyph.endPtsOfContours):\n            ptsOfContour = endPoint - lastEndPoint", "C04", "WOFF2ContourEndPointsRoundTrip", "green"),
     ("woff2-instruction-stream-off-by-one", "ttLib/woff2.py", "        self.instructionStream = instructionStream[instructionLength:]", "        self.instructionStream = instructionStream[instructionLength + 1:]", "C04", "WOFF2InstructionsRoundTrip", "alarm"),
     ("woff2-decode-steps-reordered", "ttLib/woff2.py", "            self._decodeCoordinates(glyph)\n            self._decodeOverlapSimpleFlag(glyph, glyphID)", "            self._decodeOverlapSimpleFlag(glyph, glyphID)\n            self._decodeCoordinates(glyph)", "C04", "WOFF2GlyphDispatch", "alarm"),
+    ("woff2-components-instr-flag-last-only", "ttLib/woff2.py", "            haveInstructions = haveInstructions | haveInstr", "            haveInstructions = haveInstr", "C04", "WOFF2ComponentsLoop", "alarm"),
+    ("woff2-components-flag-on-every-record", "ttLib/woff2.py", "            if i == lastcomponent:\n                haveInstructions = hasattr(glyph, \"program\")\n                more = 0", "            haveInstructions = hasattr(glyph, \"program\")\n            if i == lastcomponent:\n                more = 0", "C04", "WOFF2ComponentsLoop", "alarm"),
+    ("woff2-glyf-trailing-bytes-accepted", "ttLib/woff2.py", "        if offset != inputDataSize:", "        if offset > inputDataSize:", "C04", "WOFF2GlyfContainerRoundTrip", "alarm"),
+    ("woff2-glyf-overlap-bitmap-always-written", "ttLib/woff2.py", "        if hasOverlapSimpleBitmap:\n            data += self.overlapSimpleBitmap.tobytes()\n        return data", "        data += self.overlapSimpleBitmap.tobytes()\n        return data", "C04", "WOFF2GlyfContainerRoundTrip", "alarm"),
     ("closure-memo-subset-spelling", "subset/__init__.py", "    if cur_glyphs.issubset(covered):\n        return\n    covered.update(cur_glyphs)\n\n    for st in self.SubTable:", "    if cur_glyphs <= covered:\n        return\n    covered.update(cur_glyphs)\n\n    for st in self.SubTable:", "C07", "LookupClosureMemo", "green"),
 ]
 
